@@ -217,6 +217,7 @@ pub fn run(p: &Params) -> Report {
     if p.only_case.is_none() {
         mon.rep.require("threshold probes: min-1 rejected", p.n(150, 3000));
         mon.rep.require("threshold probes: exactly min accepted", p.n(150, 3000));
+        mon.rep.require("threshold probes: padded variant below its own minimum", p.n(100, 2000));
         mon.rep.require("blocks sealed with action", p.n(300, 6000));
     }
     for case in 0..mine {
@@ -310,6 +311,45 @@ pub fn run(p: &Params) -> Report {
                                 }
                             }
                             Err(_) => mon.rep.count("threshold probes that panicked (left to C09)"),
+                        }
+                        // the same transaction with bulkier signature data (an extra, unused signature slot): the same
+                        // signature-free hash, a larger serialized size, so a larger minimum - whatever has been weighed before
+                        if name == "exactly min" || name == "min+k" {
+                            let mut t2 = t.clone();
+                            let pad = *r.pick(&[64usize, 65, 200, 1000, 5000]);
+                            t2.sigs.push(Bytes::from(vec![0x5au8; pad]));
+                            let min2 = ref_min_fee(&t2, cur_mult);
+                            let below2 = BigUint::from(t2.fee.0) < min2;
+                            let mut st2 = w.cur.clone();
+                            let res2 = crate::guard::guarded(|| st2.apply_tx(&t2));
+                            mon.rep.eval();
+                            mon.rep.count("threshold probes: signature-padded variant of a transaction weighed just before");
+                            if below2 {
+                                mon.rep.count("threshold probes: padded variant below its own minimum");
+                            }
+                            let wit2 = json!({"case_seed": case_seed, "origin": w.origin, "probe": format!("{}+padded-signatures", name), "multiplier": cur_mult.to_string(), "fee": t2.fee.0.to_string(), "reference_min": min2.to_string(),
+                                "reference_min_of_the_unpadded_variant": min.to_string(), "padding_bytes": pad, "tx_hex": tx_hex(&t2), "result": format!("{:?}", res2.as_ref().map_err(|e| e.message.clone()))});
+                            match res2 {
+                                Ok(Ok(())) => {
+                                    if below2 {
+                                        mon.rep.violate(&format!("C05|accepted-below-minimum-fee|apply_tx|signature-padded-variant,{}", mclass(cur_mult)), format!("fee {} < minimum {} accepted (the variant with smaller signature data has minimum {})", t2.fee.0, min2, min), wit2);
+                                    } else {
+                                        let after = st2.verif_snap("probe");
+                                        let before = w.cur.verif_snap("probe");
+                                        let exp_pool = BigUint::from(before.fee_pool) + &min2;
+                                        let exp_tips = BigUint::from(before.tips) + (BigUint::from(t2.fee.0) - &min2);
+                                        if exp_pool <= BigUint::from(u128::MAX) && (BigUint::from(after.fee_pool) != exp_pool || BigUint::from(after.tips) != exp_tips) {
+                                            mon.rep.violate(&format!("C05|fee-split-wrong|apply_tx|signature-padded-variant,{}", mclass(cur_mult)), format!("pool {} -> {} (expected {}), tips {} -> {} (expected {})", before.fee_pool, after.fee_pool, exp_pool, before.tips, after.tips, exp_tips), wit2);
+                                        }
+                                    }
+                                }
+                                Ok(Err(e)) => {
+                                    if !below2 && matches!(e, melstf::StateError::InsufficientFees(_)) {
+                                        mon.rep.violate(&format!("C05|rejected-at-or-above-minimum-fee|apply_tx|signature-padded-variant,{}", mclass(cur_mult)), format!("fee {} >= reference minimum {} rejected as insufficient", t2.fee.0, min2), wit2);
+                                    }
+                                }
+                                Err(_) => mon.rep.count("threshold probes that panicked (left to C09)"),
+                            }
                         }
                         if mon.rep.samples.len() < 3 && name == "exactly min" && cur_mult > 0 {
                             mon.rep.sample(json!({"probe": name, "multiplier": cur_mult.to_string(), "fee": t.fee.0.to_string(), "reference_weight": ref_tx_weight(&t).to_string(), "outputs": t.outputs.len(), "inputs": t.inputs.len(), "covenants": t.covenants.len()}));
